@@ -248,8 +248,16 @@ pub fn generate(args: &Args, out: &mut Out) {
                 }
             }
         }
-        // just below the depth where the recorded finding starts (must all pass)
-        for d in [1usize, 2, 64, 500] {
+        // small depths (must all pass).  For the three closed-then-error shapes the recorded
+        // finding (recursive drop glue on the error path) starts at a depth that depends on the
+        // frame sizes the compiler chose (64 KiB / ~70 B for arrays, / ~140 B for objects: it
+        // moved from above to below 500 between two builds of the same sources), so nothing
+        // between 100 and 1000 is asked of them
+        let garbage = matches!(shape, "arr_garbage" | "obj_garbage" | "arr_sibling");
+        for d in [1usize, 2, 64, 100, 500] {
+            if garbage && d > 100 {
+                continue;
+            }
             out.case(|| format!("d {shape} {d} 0 str"));
         }
     }
